@@ -187,7 +187,8 @@ def merge_from_tlc(ctx, hists, SIZE=8, WINDOW=3):
     for h in hists:
         addr = rng.choice([0x1000, 0x0E1EC000, 0xFFD0, 0x00FFFF80])
         out.append({"op": "merge", "addr": addr, "size": SIZE * 16, "expect": h["phase"],
-                    "inputs": [{"off": o * 16, "len": 48, "src": "tool", "seed": i + len(out)} for i, o in enumerate(h["offs"])],
+                    "inputs": [{"off": o * 16, "len": ln * 16, "src": "tool" if ln == 3 else "own", "seed": i + len(out)}
+                               for i, (o, ln) in enumerate(zip(h["offs"], h["lens"]))],
                     "via": "lib"})
     return out
 
@@ -239,7 +240,9 @@ def run(ctx: core.Check):
     if ctx.quick:
         ctx.rng.shuffle(hists)
         # all accepted placements + a sample of the rejected ones
-        hists = [h for h in hists if h["phase"] == "written"] + [h for h in hists if h["phase"] != "written"][:600]
+        # all accepted placements, every rejected placement of TWO records (all overlap types in both orders), a sample of the rest
+        hists = ([h for h in hists if h["phase"] == "written"] + [h for h in hists if h["phase"] != "written" and len(h["offs"]) == 2]
+                 + [h for h in hists if h["phase"] != "written" and len(h["offs"]) != 2][:500])
     r = Run(ctx)
     ctx.note("Use C: real mpi generate")
     gs = gen_scenarios(ctx)
@@ -255,7 +258,7 @@ def run(ctx: core.Check):
     for s in ms:
         r.merge(s)
         ctx.count("evaluations")
-        ctx.nontriv(("tlc", tuple(i["off"] for i in s["inputs"])))
+        ctx.nontriv(("tlc", tuple((i["off"], i["len"]) for i in s["inputs"])))
         got = "rejected" if r.events[-1]["ev"] == "Refused" else "written"
         drift += got != s["expect"]
     ctx.cov["drift_model_vs_code"] = drift
